@@ -129,8 +129,19 @@ def init_params(case):
 
 
 def cohort(case, rnd, datasets):
-  return [(bytes.fromhex(case['pool'][i]['id']), datasets[i], jax.random.PRNGKey(seed))
-          for i, seed in rnd]
+  """(client id, dataset, key) triples of one round.  With case['id_shift'] the
+  ids are rotated among the pool from round to round: a client id may come back
+  with ANOTHER dataset (another size) -- the train and the held-out split of the
+  same user, say.  A round is a function of the clients it is given, not of what
+  an id was associated with before."""
+  shift = 0
+  shifts = case.get('id_shift')
+  if shifts:
+    r = next((j for j, x in enumerate(case['rounds']) if x is rnd), 0)
+    shift = shifts[r % len(shifts)]
+  n = len(case['pool'])
+  return [(bytes.fromhex(case['pool'][(i + shift) % n]['id']), datasets[i],
+           jax.random.PRNGKey(seed)) for i, seed in rnd]
 
 
 # ---------------------------------------------------------------- references
@@ -478,8 +489,9 @@ def case_strategy(draw, tier, relation=False):
     rounds.append([[i, draw(st.integers(0, 2**20))] for i in members])
   if all(not r for r in rounds) and allowed:
     rounds[0] = [[allowed[0], 7]]
+  id_shift = [0] + [draw(st.sampled_from([0, 0, 1, 2])) for _ in rounds[1:]]
   return {'d': d, 'w0': draw(st.lists(st.integers(-16, 16), min_size=d, max_size=d)),
-          'b0': draw(st.integers(-16, 16)), 'pool': pool,
+          'b0': draw(st.integers(-16, 16)), 'pool': pool, 'id_shift': id_shift,
           'client_opt': draw(opt_strategy()), 'server_opt': draw(opt_strategy()),
           'hparams': hparams, 'rounds': rounds,
           'perm': draw(st.lists(st.integers(0, 1000), min_size=1, max_size=6)),
